@@ -240,6 +240,7 @@ func (r *Raft) onTakeSnapshot(t takeSnapshot) {
 	}
 	r.snapTakenCh = make(chan snapTaken, 1)
 	go func(index uint64, config Config) { // tracked by r.snapTakenCh
+		verifPoint("takeSnapshot.start", r.snaps.dir)
 		meta, err := doTakeSnapshot(r.fsm, index, config)
 		if trace {
 			println(r, "doTakeSnapshot err:", err)
